@@ -6,6 +6,7 @@
    here too (inv . A' = I; the indicator's index is a least hypervolume contributor). *)
 From Coq Require Import List ZArith Bool PrimFloat Uint63.
 From DV Require Export Base.Corr Model.C14_exec.
+From DV Require Model.C14_LogSelect.        (* qualified use only: C04's models share names with C14_exec *)
 Import ListNotations.
 Local Open Scope float_scope.
 
@@ -177,7 +178,10 @@ Inductive case :=
 | CMoGen (P : mparams (T:=float)) (st : mstate (T:=float)) (arz : list fvec) (js : list nat) (rtol : float)
          (obs : list (fvec * nat))
 | CMoUpd (P : mparams (T:=float)) (st : mstate (T:=float)) (pop : list (mind (T:=float))) (hv : list nat) (rtol : float)
-         (obs : mstate (T:=float)) (obs_chosen obs_not_chosen : list nat).
+         (obs : mstate (T:=float)) (obs_chosen obs_not_chosen : list nat)
+(* _select with C04's model of sortLogNondominated (Model/C14_LogSelect.v) on the per-objective
+   ranks of the candidates' weighted values (an order isomorphism onto integers) *)
+| CMoSelLog (mu : nat) (ranks : list (list Z)) (hv : list nat) (obs_chosen obs_not_chosen : list nat).
 
 Definition check (c : case) : bool :=
   match c with
@@ -210,4 +214,10 @@ Definition check (c : case) : bool :=
       mstate_close rtol st' obs && nat_list_eqb chosen obs_chosen && nat_list_eqb not_chosen obs_not_chosen &&
       Nat.eqb (length seen) (length hv) &&
       hv_contracts wvs (ref_point FOps wvs) seen hv
+  | CMoSelLog mu ranks hv obs_chosen obs_not_chosen =>
+      match DV.Model.C14_LogSelect.mo_select_log mu ranks hv with
+      | Some (chosen, not_chosen, seen) =>
+          nat_list_eqb chosen obs_chosen && nat_list_eqb not_chosen obs_not_chosen && Nat.eqb (length seen) (length hv)
+      | None => false
+      end
   end.
